@@ -219,7 +219,7 @@ def cleanup_all():
 
 
 class _Worker:
-    __slots__ = ("index", "pid", "task_w", "res_r", "free_at", "ran")
+    __slots__ = ("index", "pid", "task_w", "res_r", "free_at", "ran", "n_done")
 
 
 class _Task:
@@ -326,8 +326,13 @@ class SimPool:
     def __init__(self, processes=None, sched=None, log=None, initializer=None, initargs=(), maxtasksperchild=None):
         if not processes or processes < 1:
             raise ValueError("Number of processes must be at least 1")
-        if initializer is not None or maxtasksperchild is not None:
-            raise SimPoolError("SimPool does not model initializer / maxtasksperchild")
+        if initializer is not None:
+            raise SimPoolError("SimPool does not model initializer")
+        if maxtasksperchild is not None and (not isinstance(maxtasksperchild, int) or maxtasksperchild < 1):
+            raise ValueError("maxtasksperchild must be a positive int or None")
+        # a worker that has completed this many tasks exits and is replaced; the real pool forks the replacement from its
+        # worker-handler THREAD (Pool._handle_workers -> _repopulate_pool), not from the thread that built the pool
+        self._maxtasks = maxtasksperchild
         sched = sched or {}
         self._durations = [max(1, int(x)) for x in (sched.get("durations") or [1])]
         ready = [max(0, int(x)) for x in (sched.get("ready") or [0])]
@@ -340,7 +345,8 @@ class SimPool:
         self._n_items = 0
         self._last_start = 0
         self._workers = []
-        self.worker_pids = []
+        self.worker_pids = []  # by slot, as forked at construction
+        self.replacement_pids = []  # processes that took over a slot later (maxtasksperchild)
         self.stats = {"dropped_in_flight": 0, "dropped_queued": 0}
         _LIVE.append(self)
         try:
@@ -352,7 +358,8 @@ class SimPool:
         self.log.append(["pool", processes])
 
     # ------------------------------------------------------------------------------------------ children
-    def _spawn(self, index, ready_at):
+    def _fork_child(self):
+        """fork one worker process; returns (pid, task_w, res_r) in the parent"""
         task_r, task_w = os.pipe()
         res_r, res_w = os.pipe()
         sys.stdout.flush()
@@ -383,10 +390,47 @@ class SimPool:
                 os._exit(code)
         os.close(task_r)
         os.close(res_w)
+        return pid, task_w, res_r
+
+    def _spawn(self, index, ready_at):
+        pid, task_w, res_r = self._fork_child()
         w = _Worker()
-        w.index, w.pid, w.task_w, w.res_r, w.free_at, w.ran = index, pid, task_w, res_r, ready_at, []
+        w.index, w.pid, w.task_w, w.res_r, w.free_at, w.ran, w.n_done = index, pid, task_w, res_r, ready_at, [], 0
         self._workers.append(w)
         self.worker_pids.append(pid)
+
+    def _replace(self, w):
+        """maxtasksperchild reached: the worker of this slot exits, a new process takes the slot. As in the real pool the
+        replacement is forked from a helper thread of the parent (one at a time, joined before anything else happens, so the
+        event order stays a function of the seed)."""
+        import threading
+
+        for fd in (w.task_w, w.res_r):
+            try:
+                os.close(fd)
+            except OSError:
+                pass
+        if _wait_pid(w.pid, REAP_TIMEOUT_S) is None:
+            _kill_and_reap(w.pid)
+        box = {}
+        w.task_w = w.res_r = -1
+
+        def handle_workers():
+            try:
+                box["child"] = self._fork_child()
+            except BaseException as e:  # noqa
+                box["error"] = e
+
+        th = threading.Thread(target=handle_workers, name="SimPool-handle-workers")
+        th.start()
+        th.join()
+        if "error" in box:
+            raise SimPoolError(f"could not fork a replacement worker: {box['error']!r}")
+        w.pid, w.task_w, w.res_r = box["child"]
+        w.n_done = 0
+        w.ran = []
+        self.replacement_pids.append(w.pid)
+        self.log.append(["respawn", w.index])
 
     def _stop_workers(self, kill=False):
         workers, self._workers = self._workers, []
@@ -548,6 +592,9 @@ class SimPool:
 
     def _execute(self, t):
         w = t.worker
+        if self._maxtasks is not None and w.n_done >= self._maxtasks:
+            self._replace(w)
+        w.n_done += 1
         try:
             _write_msg(w.task_w, t.no, t.payload)
             no, raw = _read_msg(w.res_r, time.monotonic() + TASK_TIMEOUT_S)
